@@ -650,6 +650,65 @@ def helicity_cg_matrix(ctx):
 
 
 # =================================================================================================
+# C13 / 2b   the tables of one spin-parity assignment do not depend on what was built before under the same names
+# =================================================================================================
+# BaseParticle / BaseDecay hash and compare BY NAME; a functools.lru_cache on a method is therefore shared by every same-named
+# decay of the process (a spin-parity scan "X(0-), X(1-), X(1+) -> J/psi pi" builds exactly that).  The statement quantifies over
+# every spin-parity assignment, not over "every assignment whose particle names are new in this process".
+@group(["C13"], "particle+amp.core/name_reuse/ground",
+       ["amp.core:HelicityDecay._get_cg_matrix", "amp.core:HelicityDecay.get_cg_matrix", "particle:Decay.get_cg_matrix", "particle:Decay.get_min_l",
+        "particle:Decay.get_ls_list", "particle:Decay.get_l_list"],
+       env="tf", kind="G", cost=3,
+       bound="all (ja,jb,jc) in {0,1/2,..,5/2}^3 x parity-even / parity-odd / parity-violating, built one after the other with the SAME three particle "
+             "names (A, B, C), compared with a twin built under names never used before",
+       assumes=["real TensorFlow process only because tf_pwa.amp.core cannot be imported under the shim"])
+def name_reuse(ctx):
+    import numpy as np
+
+    particle = ctx.mod("particle")
+    core = ctx.mod("amp.core")
+    A = Agg(ctx)
+    for cls in ("Decay", "HelicityDecay"):
+        A.declare(cls + ".get_ls_list/history-independent", "%s.get_ls_list() of a decay named A->B C equals that of an identically configured decay with fresh names" % cls)
+        A.declare(cls + ".get_cg_matrix/history-independent",
+                  "%s.get_cg_matrix() of a decay named A->B C equals that of an identically configured decay with fresh names, whatever same-named decays were evaluated before" % cls)
+        A.declare(cls + ".get_min_l/history-independent", "%s.get_min_l() of a decay named A->B C equals min l of its own get_ls_list()" % cls)
+    vals = _spin_values(5)
+    for ja, jb, jc in itertools.product(vals, repeat=3):
+        for v in _variants(False):
+            pa, pb, pc, p_break, C = v
+            w = {"ja": spell(ja), "jb": spell(jb), "jc": spell(jc), "pa": pa, "pb": pb, "pc": pc, "p_break": p_break,
+                 "history": "all assignments before this one in itertools.product order, same names A, B, C"}
+            for cls, mk in (("Decay", particle.Decay), ("HelicityDecay", core.HelicityDecay)):
+                res = []
+                for names in (("A", "B", "C"), (uid("A"), uid("B"), uid("C"))):
+                    a = particle.BaseParticle(names[0], J=ja, P=pa, C=C)
+                    b = particle.BaseParticle(names[1], J=jb, P=pb)
+                    c = particle.BaseParticle(names[2], J=jc, P=pc)
+                    d = mk(a, [b, c], p_break=p_break, c_break=(C is None), disable=True)
+                    ok, ls = call(d.get_ls_list)
+                    if not ok or not ls:
+                        res.append(None)
+                        continue
+                    ok2, M = call(d.get_cg_matrix)
+                    ok3, ml = call(d.get_min_l)
+                    res.append((list(ls), np.asarray(M, dtype=float) if ok2 else repr(M), ml if ok3 else repr(ml)))
+                ctx.count(key=(cls, spell(ja), spell(jb), spell(jc), v), sample=w)
+                if res[0] is None or res[1] is None:
+                    A.add(cls + ".get_ls_list/history-independent", (res[0] is None) == (res[1] is None), "one of the twins has no (l,s) list", w)
+                    continue
+                (ls0, M0, l0), (ls1, M1, l1) = res
+                A.add(cls + ".get_ls_list/history-independent", ls0 == ls1, "reused names %r, fresh names %r" % (ls0, ls1), w)
+                same = isinstance(M0, np.ndarray) and isinstance(M1, np.ndarray) and M0.shape == M1.shape and bool(np.all(M0 == M1))
+                A.add(cls + ".get_cg_matrix/history-independent", same,
+                      lambda: "reused names: %s ; fresh names: %s" % (np.asarray(M0).tolist() if isinstance(M0, np.ndarray) else M0,  # noqa: B023
+                                                                      np.asarray(M1).tolist() if isinstance(M1, np.ndarray) else M1), w)  # noqa: B023
+                want = min(l for l, _ in ls0)
+                A.add(cls + ".get_min_l/history-independent", l0 == want, "get_min_l() = %r, min l of get_ls_list() = %r" % (l0, want), w)
+    A.emit()
+
+
+# =================================================================================================
 # C13 / 3   HelicityDecay.get_ls_list with l_list / ls_list
 # =================================================================================================
 @group(["C13"], "amp.core.HelicityDecay.get_ls_list/restrictions",
@@ -871,6 +930,21 @@ def make_finals(particle, n, identical=0):
     BP = particle.BaseParticle
     fin = []
     label = {}
+    if isinstance(identical, tuple):
+        # several groups of identically named finals: (2, 2) -> pi:1, pi:2, K:1, K:2
+        names = []
+        for gi, k in enumerate(identical):
+            names += [("pi", "K", "eta", "rho")[gi]] * k
+        for i in range(n):
+            if i < len(names):
+                idx = names[: i + 1].count(names[i])
+                p = BP("%s:%d" % (names[i], idx))
+                label[str(p)] = names[i]
+            else:
+                p = BP("f%d" % i)
+                label[str(p)] = "f%d" % i
+            fin.append(p)
+        return BP("A"), fin, label
     for i in range(n):
         if i < identical:
             p = BP("pi:%d" % (i + 1))
@@ -1252,7 +1326,9 @@ def decay_group(ctx):
                   "core->outs onto the decay image(core)->images(outs) of the chain")
     # the complete enumerated groups (every topology once, original intermediate names)
     for n in range(3, (6 if ctx.tier == "thorough" else 5)):
-        for ident, tag in ((0, "distinct-names"), (2, "identical-names")):
+        for ident, tag in ((0, "distinct-names"), (2, "identical-names"), ((2, 2), "identical-names")):
+            if isinstance(ident, tuple) and n < sum(ident):
+                continue
             top, fin, label = make_finals(particle, n, ident)
             chains = enumerated_chains(particle, A, "defined/" + tag, top, fin)
             if not chains:
@@ -1277,5 +1353,5 @@ def decay_group(ctx):
         _group_checks(ctx, A, particle, "distinct-names", n, 0, rng.randint(1, 12), rng, i)
     for i in range(ni):
         n = rng.choice([3, 4, 4, 5])
-        _group_checks(ctx, A, particle, "identical-names", n, rng.choice([2, 3]), rng.randint(1, 10), rng, i)
+        _group_checks(ctx, A, particle, "identical-names", n, rng.choice([2, 3] + ([(2, 2)] if n >= 4 else [])), rng.randint(1, 10), rng, i)
     A.emit()
